@@ -209,7 +209,11 @@ class TokenStore(Generic[_T]):
         start_i, start_j = start
         end_i, end_j = end
         if end < start:
-            raise ValueError('Range ends before it starts.')
+            if end_i + 1 == start_i and end_j == len(self._blocks[end_i].tokens) and start_j == 0:
+                # The empty range in front of the first token of a block, whose end was spelled from the previous block.
+                end_i, end_j = end = start
+            else:
+                raise ValueError('Range ends before it starts.')
 
         for token in tokens:
             if token.store_handle is not None and (
